@@ -239,7 +239,7 @@ M("c05-pair", "C05", D, "        if (mu_norm is None) != (sigma_norm is None):\n
 M("c08-keywords", "C08", D, "    def pdf(self, x, kappa=None, mu=None):", "    def pdf(self, x, kappa=None, loc=None):\n        mu = loc", rules=["C08.keywords"])
 M("c09-defaults", "C09", J, '        default_fit_desc = {"method": "mle", "weights": None}', '        default_fit_desc = {"method": "lsq", "weights": None}', rules=["C09.defaults"])
 M("c10-bounds", "C10", I, "        interval_boundaries = list(zip(interval_edges[:-1], interval_edges[1:]))\n\n        if isinstance(self.reference, str):\n            if self.reference.lower() == \"center\":\n                pass  # interval_references are", "        interval_boundaries = list(zip(interval_edges[:-1], interval_edges[:-1] + width))\n\n        if isinstance(self.reference, str):\n            if self.reference.lower() == \"center\":\n                pass  # interval_references are", rules=["C10.bounds"])
-M("c11-generic-fkw", "C11", D, "                setattr(self, key, arg)\n                setattr(self, key[2:], arg)", "                setattr(self, key, arg)", rules=["C11.generic"])
+M("c11-generic-fkw", "C11", D, "                setattr(self, key, arg)\n                if arg is not None:\n                    setattr(self, key[2:], arg)", "                setattr(self, key, arg)", rules=["C11.generic"])
 M("c15-shape-no-sorter", "C15", C, "                self.coordinates = np.array(\n                    sort_points_to_form_continuous_line(\n                        *coordinates, search_for_optimal_start=True\n                    )\n                ).T", "                self.coordinates = np.array(coordinates)", rules=["C15.shape"])
 M("c15-twin-gbs", "C15", C, "structure = np.ones(tuple([3] * n_dim), dtype=bool)", "structure = ndi.generate_binary_structure(n_dim, n_dim)", expect="pass")
 # ------------------------------------------------------------------ repaired copies of the recorded findings
@@ -315,3 +315,15 @@ M("c17-cand-early-exit", "C17", IX, "    ii, jj = np.nonzero(C1 & C2 & C3 & C4)\
 M("c17-twin-cand-order", "C17", IX, "    ii, jj = np.nonzero(C1 & C2 & C3 & C4)", "    ii, jj = np.nonzero((C3 & C4) & (C1 & C2))", expect="pass")
 M("c17-twin-cand-logical", "C17", IX, "    ii, jj = np.nonzero(C1 & C2 & C3 & C4)", "    ii, jj = np.nonzero(np.logical_and(np.logical_and(C1, C2), np.logical_and(C3, C4)))", expect="pass")
 M("c17-twin-cand-ops", "C17", IX, "    C1 = np.less_equal(S1, S2)\n    C2 = np.greater_equal(S3, S4)", "    C1 = S1 <= S2\n    C2 = S4 <= S3", expect="pass")
+
+# ------------------------------------------------------------------ D18 / D19 (found in round 3, fixed)
+M("c11-vonmises-wrapped-mu", "C11", D, "        if self.f_mu is not None:\n            # scipy wraps the location into [-pi, pi], a fixed mu stays as given\n            self.mu = self.f_mu\n", "",
+  rules=["C11.unmap"], what="original defect D18: scipy's vonmises.fit wraps a fixed loc, the wrapped value is stored")
+M("c11-vonmises-restore-kappa", "C11", D, "            # scipy wraps the location into [-pi, pi], a fixed mu stays as given\n            self.mu = self.f_mu\n", "            self.mu = self.f_kappa\n", rules=["C11.unmap"])
+M("c11-vonmises-restore-unguarded-twin", "C11", D, "        if self.f_mu is not None:\n            # scipy wraps the location into [-pi, pi], a fixed mu stays as given\n            self.mu = self.f_mu\n",
+  "        self.mu = self.mu if self.f_mu is None else self.f_mu\n", expect="pass")
+M("c11-generic-kw-order", "C11", D, "                if kwargs.get(f\"f_{key}\") is None:\n                    setattr(self, key, arg)\n", "                setattr(self, key, arg)\n",
+  rules=["C11.generic"], what="original defect D19: (f_c=3, c=2) leaves c == 2")
+M("c11-generic-none", "C11", D, "                if arg is not None:\n                    setattr(self, key[2:], arg)\n", "                setattr(self, key[2:], arg)\n",
+  rules=["C11.generic"], what="original defect D19: f_c=None sets c to None")
+M("c11-generic-twin-notin", "C11", D, "                if kwargs.get(f\"f_{key}\") is None:\n", "                if f\"f_{key}\" not in kwargs or kwargs[f\"f_{key}\"] is None:\n", expect="pass")
